@@ -26,7 +26,6 @@ Lemma ctoks_filter x (f : entry -> bool) l : ctoks x l = (ctoks x (filter f l) +
 Proof. induction l as [|e l IH]; cbn [filter]; [reflexivity|]. destruct (f e); cbn [negb]; rewrite !ctoks_cons; lia. Qed.
 
 (* tokens handed out by an iterator run *)
-Definition somes {A} (outs : list (option A)) : list A := flat_map (fun o => match o with Some a => [a] | None => [] end) outs.
 Lemma take_ends_count (pat : list bool) : forall (M : list entry),
   let '(outs, rest) := take_ends M pat in forall x, ctoks x M = (ctoks x (somes outs) + ctoks x rest)%nat.
 Proof.
